@@ -627,31 +627,17 @@ func runPanicRules(c *Ctx, r *Report, reach map[*ssa.Function]bool, extra []pani
 					continue
 				}
 				atoms := c.atomsAt(in)
-				var by string
-				var ok bool
-				switch x := in.(type) {
-				case *ssa.IndexAddr:
+				by, ok := c.tryDischarge(r, site, atoms, extra)
+				switch in.(type) {
+				case *ssa.IndexAddr, *ssa.Index, *ssa.Lookup:
 					nIdx++
-					by, ok = c.indexDischarge(fn, in, x.X, x.Index, atoms)
-				case *ssa.Index:
-					nIdx++
-					by, ok = c.indexDischarge(fn, in, x.X, x.Index, atoms)
-				case *ssa.Lookup:
-					nIdx++
-					by, ok = c.indexDischarge(fn, in, x.X, x.Index, atoms)
 				case *ssa.Slice:
 					nSlice++
-					by, ok = c.sliceDischarge(x.X, x.Low, x.High, atoms)
 				case *ssa.TypeAssert:
 					nAssert++
-					by, ok = c.assertDischarge(x, atoms)
 				}
 				if !ok {
-					for _, d := range extra {
-						if by, ok = d(c, r, site, atoms); ok {
-							break
-						}
-					}
+					by, ok = c.liftDischarge(r, site, extra, 0)
 				}
 				if ok {
 					if strings.HasPrefix(by, "ASSUMED:") {
@@ -675,6 +661,296 @@ func runPanicRules(c *Ctx, r *Report, reach map[*ssa.Function]bool, extra []pani
 		}
 	}
 	r.extra["panic_sites"] = map[string]int{"index": nIdx, "slice": nSlice, "assert": nAssert}
+}
+
+// tryDischarge applies the local dischargers and then the named ones to a site under the given facts.
+func (c *Ctx) tryDischarge(r *Report, site *panicSite, atoms []Atom, extra []panicDischarger) (by string, ok bool) {
+	switch x := site.in.(type) {
+	case *ssa.IndexAddr:
+		by, ok = c.indexDischarge(site.fn, site.in, x.X, x.Index, atoms)
+	case *ssa.Index:
+		by, ok = c.indexDischarge(site.fn, site.in, x.X, x.Index, atoms)
+	case *ssa.Lookup:
+		by, ok = c.indexDischarge(site.fn, site.in, x.X, x.Index, atoms)
+	case *ssa.Slice:
+		by, ok = c.sliceDischarge(x.X, x.Low, x.High, atoms)
+	case *ssa.TypeAssert:
+		by, ok = c.assertDischarge(x, atoms)
+	}
+	if !ok {
+		for _, d := range extra {
+			if by, ok = d(c, r, site, atoms); ok {
+				break
+			}
+		}
+	}
+	return by, ok
+}
+
+// siteKey renders the construct of a site under the calling context in force.
+func (c *Ctx) siteKey(in ssa.Instruction) string {
+	switch x := in.(type) {
+	case *ssa.IndexAddr:
+		return c.key(x.X, nil) + "[" + c.key(x.Index, nil) + "]"
+	case *ssa.Index:
+		return c.key(x.X, nil) + "[" + c.key(x.Index, nil) + "]"
+	case *ssa.Lookup:
+		return c.key(x.X, nil) + "[" + c.key(x.Index, nil) + "]"
+	case *ssa.Slice:
+		return c.key(x, nil)
+	case *ssa.TypeAssert:
+		return c.key(x, nil)
+	}
+	return ""
+}
+
+// privateHelper: an unexported top-level module function that is never used as a value — every caller
+// is a static call site in the module, so facts that hold at all of them hold on entry.
+func (c *Ctx) privateHelper(h *ssa.Function) ([]*ssa.Call, bool) {
+	if h == nil || !inLib(h) || h.Parent() != nil || h.Object() == nil || h.Object().Exported() {
+		return nil, false
+	}
+	if h.Signature.Recv() != nil {
+		// a method may be reached through an interface or a method value
+		if named := recvNamed(h); named == nil || implementsAnyInterfaceMethod(c, named, h.Name()) {
+			return nil, false
+		}
+	}
+	var sites []*ssa.Call
+	for _, f := range c.Funcs {
+		for _, b := range f.Blocks {
+			for _, in := range b.Instrs {
+				if call, ok := in.(*ssa.Call); ok && call.Call.StaticCallee() == h {
+					if !inLib(f) {
+						continue
+					}
+					sites = append(sites, call)
+					for _, a := range call.Call.Args {
+						if a == ssa.Value(h) {
+							return nil, false
+						}
+					}
+					continue
+				}
+				for _, op := range in.Operands(nil) {
+					if *op == ssa.Value(h) {
+						return nil, false // used as a value (stored, passed, deferred, go'ed)
+					}
+					if mc, ok := (*op).(*ssa.MakeClosure); ok && mc.Fn == ssa.Value(h) {
+						return nil, false
+					}
+				}
+			}
+		}
+	}
+	return sites, len(sites) > 0
+}
+
+func recvNamed(f *ssa.Function) *types.Named {
+	t := f.Signature.Recv().Type()
+	if p, ok := t.(*types.Pointer); ok {
+		t = p.Elem()
+	}
+	n, _ := t.(*types.Named)
+	return n
+}
+
+// implementsAnyInterfaceMethod: could a call through some interface in the program dispatch to
+// method name of the named type? (conservative: any interface type in the module or fmt/json/sort
+// well-known method names)
+func implementsAnyInterfaceMethod(c *Ctx, named *types.Named, name string) bool {
+	switch name {
+	case "String", "Error", "MarshalJSON", "UnmarshalJSON", "Format", "GoString", "Len", "Less", "Swap", "Write", "Read":
+		return true
+	}
+	for _, p := range c.Pkgs {
+		sc := p.Types.Scope()
+		for _, n := range sc.Names() {
+			tn, ok := sc.Lookup(n).(*types.TypeName)
+			if !ok {
+				continue
+			}
+			if it, ok := tn.Type().Underlying().(*types.Interface); ok {
+				for i := 0; i < it.NumMethods(); i++ {
+					if it.Method(i).Name() == name {
+						return true
+					}
+				}
+			}
+		}
+	}
+	return false
+}
+
+// liftDischarge: a site in a private helper that its own facts do not discharge is examined in each
+// calling context — the helper's parameters are bound to the call's arguments, the site and the helper's
+// own facts are re-read in the caller's terms, and the caller's facts at the call are added. The site
+// is discharged when every context discharges it (recursively, two levels).
+func (c *Ctx) liftDischarge(r *Report, site *panicSite, extra []panicDischarger, depth int) (string, bool) {
+	if depth >= 2 {
+		return "", false
+	}
+	sites, ok := c.privateHelper(site.fn)
+	if !ok {
+		return "", false
+	}
+	h := site.fn
+	var bys []string
+	for _, cs := range sites {
+		if len(cs.Call.Args) != len(h.Params) {
+			return "", false
+		}
+		old := c.ctxEnv
+		ce := &env{mem: map[*ssa.Alloc]ssa.Value{}, phi: map[*ssa.Phi]ssa.Value{}, par: map[*ssa.Parameter]ssa.Value{}, dom: true}
+		if old != nil {
+			for k, v := range old.par {
+				ce.par[k] = v
+			}
+		}
+		for j, a := range cs.Call.Args {
+			ce.par[h.Params[j]] = a
+		}
+		c.ctxEnv = ce
+		s2 := &panicSite{cs.Parent(), site.in, site.kind, c.siteKey(site.in)}
+		atoms := c.atomsAt(site.in)
+		for _, a := range c.atomsAt(cs) {
+			if c.helperMayKill(h, cs.Parent(), a) {
+				continue
+			}
+			atoms = append(atoms, a)
+		}
+		by, ok := c.tryDischarge(r, s2, atoms, extra)
+		if !ok {
+			by, ok = c.liftDischargeFrom(r, s2, cs, atoms, extra, depth+1)
+		}
+		c.ctxEnv = old
+		if !ok {
+			return "", false
+		}
+		bys = append(bys, by)
+	}
+	sort.Strings(bys)
+	return fmt.Sprintf("in each of the %d calling contexts of %s: %s", len(sites), fnName(h), strings.Join(uniq(bys), "; ")), true
+}
+
+// liftDischargeFrom: one more level — the caller of the helper is itself a private helper.
+func (c *Ctx) liftDischargeFrom(r *Report, s2 *panicSite, via *ssa.Call, have []Atom, extra []panicDischarger, depth int) (string, bool) {
+	if depth >= 2 {
+		return "", false
+	}
+	g := s2.fn
+	sites, ok := c.privateHelper(g)
+	if !ok {
+		return "", false
+	}
+	var bys []string
+	for _, cs := range sites {
+		if len(cs.Call.Args) != len(g.Params) {
+			return "", false
+		}
+		old := c.ctxEnv
+		ce := old.clone()
+		ce.dom = true
+		if ce.par == nil {
+			ce.par = map[*ssa.Parameter]ssa.Value{}
+		}
+		for j, a := range cs.Call.Args {
+			ce.par[g.Params[j]] = a
+		}
+		c.ctxEnv = ce
+		s3 := &panicSite{cs.Parent(), s2.in, s2.kind, c.siteKey(s2.in)}
+		atoms := append(c.atomsAt(s2.in), c.atomsAt(via)...)
+		for _, a := range c.atomsAt(cs) {
+			if c.helperMayKill(g, cs.Parent(), a) {
+				continue
+			}
+			atoms = append(atoms, a)
+		}
+		by, ok := c.tryDischarge(r, s3, atoms, extra)
+		c.ctxEnv = old
+		if !ok {
+			return "", false
+		}
+		bys = append(bys, by)
+	}
+	sort.Strings(bys)
+	return strings.Join(uniq(bys), "; "), true
+}
+
+// withContexts runs f once for every calling context in which h is reached from root through private
+// helpers (h == root: once, with no context). While f runs, keys and atoms read with a nil environment
+// are in root's terms; callerAtoms are the facts that hold at the call sites on the way down. It
+// returns false when h is not reached from root that way (f may then not have been called at all).
+func (c *Ctx) withContexts(h, root *ssa.Function, depth int, f func(callerAtoms []Atom)) bool {
+	if h == root {
+		f(nil)
+		return true
+	}
+	if depth >= 3 {
+		return false
+	}
+	sites, ok := c.privateHelper(h)
+	if !ok {
+		return false
+	}
+	// all callers must themselves be reached from root
+	for _, cs := range sites {
+		if !c.reachedOnlyFrom(cs.Parent(), root, depth+1) {
+			return false
+		}
+	}
+	for _, cs := range sites {
+		cs := cs
+		if len(cs.Call.Args) != len(h.Params) {
+			return false
+		}
+		c.withContexts(cs.Parent(), root, depth+1, func(outer []Atom) {
+			old := c.ctxEnv
+			ce := &env{mem: map[*ssa.Alloc]ssa.Value{}, phi: map[*ssa.Phi]ssa.Value{}, par: map[*ssa.Parameter]ssa.Value{}, dom: true}
+			if old != nil {
+				for k, v := range old.par {
+					ce.par[k] = v
+				}
+			}
+			atoms := append(append([]Atom(nil), outer...), c.atomsAt(cs)...)
+			for j, a := range cs.Call.Args {
+				ce.par[h.Params[j]] = a
+			}
+			c.ctxEnv = ce
+			f(atoms)
+			c.ctxEnv = old
+		})
+	}
+	return true
+}
+
+func (c *Ctx) reachedOnlyFrom(g, root *ssa.Function, depth int) bool {
+	if g == root {
+		return true
+	}
+	if depth >= 3 {
+		return false
+	}
+	sites, ok := c.privateHelper(g)
+	if !ok {
+		return false
+	}
+	for _, cs := range sites {
+		if !c.reachedOnlyFrom(cs.Parent(), root, depth+1) {
+			return false
+		}
+	}
+	return true
+}
+
+// helperMayKill: may the helper (or anything it calls) store to a struct field the caller's fact speaks of?
+func (c *Ctx) helperMayKill(h, caller *ssa.Function, a Atom) bool {
+	fields := c.fieldsInKey(caller, a.Subj)
+	if len(fields) == 0 {
+		return false
+	}
+	writers := c.fieldWriters(fields...)
+	return writers[h]
 }
 
 func isIntegerType(t types.Type) bool {
